@@ -61,7 +61,7 @@ func (s Scaler) Scale(val, min, max int64) float64 {
 		return 1.0
 	}
 	minf10, maxf10 := s.remapMinMax(min, max)
-	if minf10 == maxf10 {
+	if minf10 >= maxf10 { // degenerate range (also min == max == MaxInt64, where min+1 wraps around)
 		return 0.0
 	}
 	return (s.mapVal(float64(val)) - minf10) / (maxf10 - minf10)
